@@ -13,6 +13,7 @@ REF = os.path.join(common.VERIF, 'spec', 'ref_validators.py')
 ASSUMPTIONS = [
     'inputs are strings over the 43 characters 0-9 : ; < = > ? @ A-Z in compact presentation (no separators, upper case); presentation handling (separators, case, look-alikes) is the subject of C03/C14, not of this check',
     'the reference transcriptions are in spec/ref_validators.py; they read the same shipped tables (ISO 3166 lists of isin/isrc, iban.dat) with their own parser',
+    'iso11649 treats the colon as a separator (documented presentation character): it is excluded from that module\'s input alphabet; IBAN is compared with check_country=False',
     'Bitcoin addresses are NOT covered: Base58Check/Bech32 need SHA-256, which the engine cannot execute symbolically (see DESIGN.md)',
     'IBAN: one unit per registered country (country code concrete, the rest symbolic) at the registered length and at length +-1; quick tier: a seed-rotated subset of countries',
 ]
@@ -42,7 +43,9 @@ SCOPE = {
 def script(unit):
     m, fn = unit['module'], unit['ref']
     E.load_file('ref_validators', REF) if 'ref_validators' not in E.EXTRA_FILES else None
-    calls = [Call(m, 'validate', [X()]), Call('ref_validators', fn, [X()], label='reference.' + fn)]
+    # IBAN: the published rules are the generic ones (ISO 13616 + registry structures); national account-number checks of
+    # BE/ES/ME/NO are the subject of C09
+    calls = [Call(m, 'validate', [X()], {'check_country': False} if m == 'stdnum.iban' else None), Call('ref_validators', fn, [X()], label='reference.' + fn)]
     calls[1].file = REF
 
     def ob(outs):
@@ -65,7 +68,7 @@ def make_units(tier, only):
         if only and m not in only:
             continue
         for L in (lq if tier == 'quick' else lt):
-            units.append(dict(module=m, ref=fn, L=L, options={}, charset=(45, 90) if m == 'stdnum.casrn' else (48, 90), prefix=prefix, **caps))
+            units.append(dict(module=m, ref=fn, L=L, options={}, charset=(45, 90) if m == 'stdnum.casrn' else (48, 90), prefix=prefix, exclude=':' if m == 'stdnum.iso11649' else '', **caps))
     if not only or 'stdnum.iban' in only:
         from spec import numdb_ref
         tree = numdb_ref.parse_file(open(os.path.join(common.REPO, 'stdnum', 'iban.dat'), encoding='utf-8').read())
